@@ -1,4 +1,5 @@
 SPECIFICATION Spec
 CONSTANTS
   NLayers = 2
+  Separate = FALSE
 CHECK_DEADLOCK FALSE
